@@ -269,7 +269,8 @@ def gen_rhythm_text(rng, depth=1):
         elif k < 0.92 and depth > 0:
             parts.append("[%s %s]" % (rng.choice(["2", "3", ""]), gen_rhythm_text(rng, depth - 1)))
         elif k < 0.96 and depth > 0:
-            parts.append("%s{%s}" % (rng.choice(["Sub", "SUB"]), gen_rhythm_text(rng, depth - 1)))
+            # (the Sub command accepts blanks before its brace everywhere; the word is protected whatever follows it)
+            parts.append("%s%s{%s}" % (rng.choice(["Sub", "SUB"]), rng.choice(["", "", " ", "\t", "  "]), gen_rhythm_text(rng, depth - 1)))
         else:
             parts.append(rng.choice(["|", " ", "\n", "x", "z8", "Q"]))
         if rng.random() < 0.3:
@@ -302,6 +303,10 @@ def gen_builtin_cases(rng, n, macros):
         if name not in macros:
             continue
         pre, post = frag(rng, 1, rng.randrange(0, 2), SIMPLE), frag(rng, 1, rng.randrange(0, 2), SIMPLE)
+        if rng.random() < 0.5:
+            # a song key / track key already in force: the documented texts set and reset the SONG key
+            # (closed with `;` or `)`: an open argument would absorb a following `|` or `(` - the proviso of C18)
+            pre = rng.choice(["Key=2; ", "KeyShift(3) ", "TrackKey=-2; ", "TrackKey(5) ", "Key=-1; TrackKey=4; "]) + pre
         if name == "Unison":
             k = str(rng.choice([7, 4, 12, 3, 5, -12, 0]))
             call = rng.choice(["Unison{%s},%s;", "Unison({%s},%s)"]) % (notes, k)
